@@ -400,7 +400,9 @@ type dataCloser struct {
 func (d *dataCloser) Close() error {
 	d.c.mutex.Lock()
 	_ = d.WriteCloser.Close()
-	_, _, err := d.c.Text.ReadResponse(250)
+	// Any positive completion reply (2yz) means that the server has taken responsibility for the
+	// message, not only 250. Treating e. g. a 251 as failure would make the caller send it again
+	_, _, err := d.c.Text.ReadResponse(2)
 	d.c.mutex.Unlock()
 	return err
 }
